@@ -59,6 +59,14 @@ H("x64_core_boolean", variant="x64-linux", modules=["rt", "x64dec", "x64_core"],
   replay="replay_x64_core")
 
 
+H("win_core_redirect", variant="x64-windows", modules=["rt", "x64dec", "win_core"],
+  covers=["COVER: 12-byte entry form", "COVER: 5-byte entry form", "COVER: 12-byte entry straddles a page boundary", "COVER: trampoline almost 2 GiB away"],
+  functions=[f for f in X64_CORE_FUNCS if "linux" not in f and "unix" not in f] + ["common::make_memory_writable_and_executable_windows", "common::clear_cache (FlushInstructionCache path)", "PatchGuard::drop (VirtualFree path)"],
+  symbolic="f in [2^33,2^46), t in [1,2^63), trampoline anywhere within +-2 GiB of the function: both the 5-byte rel32 and the 12-byte mov/jmp entry patch occur",
+  bounds="one installation + drop; unwind 26; the six WinAPI externs are stubbed onto the simulated OS",
+  assumptions=["x64-windows is simulated: cfg(target_os) resolved to windows, VirtualAlloc/VirtualProtect/VirtualFree/FlushInstructionCache/GetCurrentProcess/get_page_size stubbed; the Windows allocator loop itself (2^20 iterations) is replaced by its contract"],
+  cex_schema=[("f", 8, 1), ("entry_bytes", 1, 24), ("t", 8, 1), ("j", 8, 1)])
+
 # ---------------------------------------------------------------------------------------------
 # family B: x86-64 Linux, histories through the public API
 # ---------------------------------------------------------------------------------------------
@@ -93,9 +101,9 @@ for name, what in (("arm_core_a32", "A32 (f = 0 mod 4)"), ("arm_core_t32_aligned
       cex_schema=[("f", 4, 1), ("entry_bytes", 1, 24), ("t", 4, 1)])
 for name, L in (("arm_api_same1", 1), ("arm_api_same2", 2), ("arm_api_same3", 3)):
     H(name, variant="arm-linux", modules=["rt", "armdec", "arm_api"],
-      covers=["COVER: Thumb target", "COVER: A32 target"],
+      covers=["COVER: Thumb target", "COVER: A32 target"] + (["COVER: forced boolean installed over an earlier fake of the same function"] if L >= 2 else []),
       functions=API_FUNCS + ARM_FUNCS,
-      symbolic="32-bit target (A32 or Thumb), symbolic entry bytes, %d fake address(es) installed one after another on the same target" % L,
+      symbolic="32-bit target (A32 or Thumb), symbolic entry bytes, %d installation(s) one after another on the same target, each a redirect to a symbolic fake address or a forced boolean" % L,
       bounds="L=%d installations on one function through one injector; loop unwind 26" % L,
       assumptions=["std::sync::Mutex as modelled by Kani (sequential lock/try_lock/unlock)"],
       cex_schema=[("f", 4, 1), ("entry_bytes", 1, 24)] + [("t%d" % i, 4, 1) for i in range(L)])
@@ -284,13 +292,36 @@ for pos, name in ((0, "panic_at_p0"), (1, "panic_at_p1"), (2, "panic_at_p2"), (3
       symbolic="script new; install A (redirect); install B (fake! with times: N via will_execute); k calls; exit.  Panic injected at position %d (5 = none); N in {0,1}, k in {0,1,2}; all addresses and bytes symbolic" % pos,
       bounds="crash position %d of 0..5; two functions; N <= 1, k <= 2; then a second injector and a preventer are created; unwind 26" % pos,
       assumptions=PANIC_ASSUME)
+H("verification_panic_comes_after_restore", variant="x64-linux", modules=["rt", "x64dec", "x64_panic"],
+  expected=[(r"CallCountVerifier", r".")], must_reach=[0], functions=PANIC_FUNCS,
+  symbolic="one function faked twice through one injector (redirect, then fake! with times: 1), no call made, normal scope exit; addresses and bytes symbolic",
+  bounds="one lifetime; the observation point is the panicking() query that call-count verification makes right before it panics",
+  assumptions=PANIC_ASSUME)
 H("after_panic_usable", variant="x64-linux", modules=["rt", "x64dec", "x64_panic"],
-  covers=["COVER: the mutex is poisoned after the unwinding exit"], functions=PANIC_FUNCS,
+  functions=PANIC_FUNCS,
   symbolic="first guard kind (injector / preventer) released while panicking; then a full install / interpret / drop cycle",
   bounds="two consecutive lifetimes; unwind 26", assumptions=PANIC_ASSUME)
 H("mprotect_failure_leaves_target_untouched", variant="x64-linux", modules=["rt", "x64dec", "x64_panic"],
   expected=[(r"make_memory_writable_and_executable", r"mprotect failed")], must_reach=[0], functions=PANIC_FUNCS,
   symbolic="mprotect fails or succeeds nondeterministically", bounds="one installation", assumptions=PANIC_ASSUME)
+
+# ---------------------------------------------------------------------------------------------
+# family I: async (C14)
+# ---------------------------------------------------------------------------------------------
+ASYNC_FUNCS = ["InjectorPP::when_called_async", "InjectorPP::when_called_async_unchecked", "WhenCalledBuilderAsync::will_return_async",
+               "WhenCalledBuilderAsync::will_return_async_unchecked", "async_func! / async_return! / async_func_unchecked! / async_return_unchecked! expansions",
+               "__assert_future_output", "func! / func_unchecked!"] + X64_CORE_FUNCS
+ASYNC_ASSUME = API_ASSUME + ["the patched function is <F as Future>::poll at the address Kani assigns to it (registered as an entry, matched by equality); only the displacement arithmetic is concrete there",
+                             "trusted: the replacement may ignore poll's two arguments under the platform ABI; the compiler emits calls to poll rather than inlining it (dev profile); executor behaviour"]
+H("async_fake_one_of_family", variant="x64-linux", modules=["rt", "x64dec", "async_api"], functions=ASYNC_FUNCS, assumptions=ASYNC_ASSUME,
+  symbolic="initial bytes of three sibling poll functions (two with the same output type, one by-reference), value returned by the replacement on two successive polls, register file",
+  bounds="family of 3 siblings, one installation, two polls, drop; unwind 72")
+H("async_history_family", variant="x64-linux", modules=["rt", "x64dec", "async_api"], functions=ASYNC_FUNCS, assumptions=ASYNC_ASSUME,
+  symbolic="initial bytes of a method future's poll and a by-reference sibling's poll; register file",
+  bounds="history fake / re-fake (checked) / fake sibling (unchecked flavour) / drop: L=3 over 2 siblings; unwind 72")
+H("async_outputs_unit_and_large", variant="x64-linux", modules=["rt", "x64dec", "async_api"], functions=ASYNC_FUNCS, assumptions=ASYNC_ASSUME,
+  symbolic="value inside a 64-byte output; initial bytes; register file",
+  bounds="unit output and [u64; 8] output; unwind 72")
 
 NOT_APPLICABLE = {}
 
@@ -298,8 +329,8 @@ PROPERTIES = {
     "C01": dict(
         level_text="Bounded model checking of the real x86-64 installation code: for every function address (any page offset), trampoline placement within the allocator's range and fake address in [1,2^63), an independent x86-64 interpreter started at the function arrives at exactly the fake (or the boolean stub returns the value), and every write hit a page the code had made writable. One installation per harness; the retry loop of the allocator is C11's.",
         level_note="Trusted: the simulated OS/memory model and the stubs that route copy_nonoverlapping to it, the x86-64 interpreter, CBMC. Assumed: cooperative kernel for the first mmap; fake not inside the patched slot. Outside: execution of the fake, concurrent execution of the bytes being patched.",
-        quick=["x64_core_redirect", "x64_core_boolean"],
-        thorough=["x64_core_redirect", "x64_core_boolean", "x64_api_hist_l1"],
+        quick=["x64_core_redirect", "x64_core_boolean", "win_core_redirect"],
+        thorough=["x64_core_redirect", "x64_core_boolean", "win_core_redirect", "x64_api_hist_l1", "x64_alloc_any_4k", "async_fake_one_of_family"],
         outside=["execution of the fake's own code", "calls already executing inside the first 5/12 bytes while the patch is written",
                  "kernel-half fake addresses (>= 2^63)"],
     ),
@@ -314,8 +345,9 @@ PROPERTIES = {
     "C03": dict(
         level_text="The memory model itself is the oracle: every write the code issues must start at a registered function entry or at a trampoline it mapped and must fit the slot (16 bytes entries / 24 bytes trampolines), else the obligation fails; bytes behind the patch and a second function packed 16 bytes away stay identical during and after; mprotect may not drop r-x from text. Decided for every address placement (single install, all variants built so far) and for API histories K=2, L<=2/3.",
         level_note="Relies on all code-memory writes going through ptr::copy_nonoverlapping: any other dereference of a simulated (integer) address is reported by Kani's pointer checks as a failed check and makes the run inconclusive, so the assumption is checked, not trusted. Mappings the model does not know (shared libraries) are outside.",
-        quick=["x64_core_redirect", "x64_core_boolean", "x64_api_hist_l1", "arm_core_a32", "arm_core_t32_misaligned"],
-        thorough=["x64_core_redirect", "x64_core_boolean", "x64_api_hist_l1", "x64_api_hist_l2", "x64_api_hist_l3", "arm_core_a32", "arm_core_t32_aligned", "arm_core_t32_misaligned"],
+        quick=["x64_core_redirect", "x64_core_boolean", "x64_api_hist_l1", "x64_alloc_any_4k", "arm_core_a32", "arm_core_t32_misaligned"],
+        thorough=["x64_core_redirect", "x64_core_boolean", "x64_api_hist_l1", "x64_api_hist_l2", "x64_api_hist_l3", "x64_alloc_any_4k", "x64_alloc_layout_16m", "a64_core_redirect", "a64_alloc_any_4k",
+                  "arm_core_a32", "arm_core_t32_aligned", "arm_core_t32_misaligned", "win_core_redirect"],
         outside=["executable mappings the model does not register (shared libraries)", "histories beyond L=3"],
     ),
     "C12": dict(
@@ -341,10 +373,11 @@ PROPERTIES = {
         outside=["thread schedules (trusted: std Mutex)", "fairness / liveness of hand-over beyond 'the lock is free and can be taken'"],
     ),
     "C05": dict(
-        level_text="Unwinding modelled as early scope exit with panicking()==true (the stub also reaches std, so the mutex really becomes poisoned). For each crash position of a scripted body (after creation, after each installation, after the calls, normal exit) with a call-count expectation pending (N in {0,1}, k calls): no panic site is reachable inside any destructor (CallCountVerifier::drop for ALL (count, expected) when panicking - a second panic would abort), every function is restored, no trampoline stays mapped, the lock is free; the next InjectorPP::new() takes the poisoned branch (witnessed) and a full install/call/drop cycle and a preventer work. Library panics during installation (signature mismatch, null pointer, non-bool target, allocation exhaustion, mprotect failure) are reached with no code write, no mprotect and no live mapping before them.",
+        level_text="Unwinding modelled as early scope exit with panicking()==true (the stub also reaches std, so the mutex really becomes poisoned). For each crash position of a scripted body (after creation, after each installation, after the calls, normal exit) with a call-count expectation pending (N in {0,1}, k calls): no panic site is reachable inside any destructor (CallCountVerifier::drop for ALL (count, expected) when panicking - a second panic would abort), every function is restored, no trampoline stays mapped, the lock is free; the next InjectorPP::new() and a full install/call/drop cycle and a preventer work (the POISONED branch itself is unreachable in the model because Kani builds std with panic=abort; it is exercised by a native premise with real unwinding in a thread). Library panics during installation (signature mismatch, null pointer, non-bool target, allocation exhaustion, mprotect failure) are reached with no code write, no mprotect and no live mapping before them.",
         level_note="Trusted: rustc's unwinder runs the same drop glue as an early return. Outside: mprotect failing during restoration (a page that could be made writable once is assumed to be again), panics inside extern \"C\" fakes (excluded by the property), the intermediate state 'verifier stored, guard not yet' after a refused will_execute is covered compositionally by verifier_quiet (silent for every count when panicking).",
-        quick=["panic_at_p2", "panic_at_p4", "after_panic_usable", "verifier_quiet", "sig_gate_differs_6", "null_pointer_refused", "mprotect_failure_leaves_target_untouched"],
-        thorough=["panic_at_p0", "panic_at_p1", "panic_at_p2", "panic_at_p3", "panic_at_p4", "normal_exit_p5", "after_panic_usable", "verifier_quiet",
+        premises=["premise_poison_recovery"],
+        quick=["panic_at_p2", "panic_at_p4", "after_panic_usable", "verification_panic_comes_after_restore", "verifier_quiet", "sig_gate_differs_6", "null_pointer_refused", "mprotect_failure_leaves_target_untouched"],
+        thorough=["panic_at_p0", "panic_at_p1", "panic_at_p2", "panic_at_p3", "panic_at_p4", "normal_exit_p5", "after_panic_usable", "verification_panic_comes_after_restore", "verifier_quiet",
                   "sig_gate_differs_6", "sig_gate_async_differs_6", "null_pointer_refused", "bool_gate_refuses_16", "mprotect_failure_leaves_target_untouched", "x64_alloc_layout_16m"],
         timeout_min={"quick": 25, "thorough": 120},
         outside=["real stack unwinding", "panics in destructors of user values", "mprotect failure during restoration"],
@@ -396,6 +429,13 @@ PROPERTIES = {
                   "a64_alloc_any_4k", "a64_alloc_any_16k", "a64_alloc_any_64k", "a64_alloc_layout_16m", "a64_alloc_layout_8m", "a64_core_refusal"],
         timeout_min={"quick": 30, "thorough": 180},
         outside=["full +-128 MiB window with 4 KiB pages (65 537 iterations)", "Windows and macOS allocators"],
+    ),
+    "C14": dict(
+        level_text="The async macros and API are run on real `async fn`s (free functions and a method, by-value and by-reference parameters; u32, unit and 64-byte outputs; futures created and never polled, as the macros do): the solver decides that the entry that gets patched is <F as Future>::poll of exactly the named function's future type and that the poll functions of siblings - including one with the same output type - keep their bytes; that the decoded destination is the address of the function generated by async_return!, which returns Poll::Ready(v) on every call with v evaluated afresh (the value expression reads a cell the harness changes between calls); that histories fake / re-fake / fake sibling (unchecked flavour) / drop leave the latest in effect and restore everything. Output-type mismatches are refused by the C09 gate (sig_gate_async_differs).",
+        level_note="Trusted: the replacement may ignore poll's arguments under the platform ABI; poll is called, not inlined; executor behaviour. Addresses of poll functions are the ones Kani assigns (concrete object ids), so address-placement generality is C01's, not this check's.",
+        quick=["async_fake_one_of_family", "async_outputs_unit_and_large", "sig_gate_async_differs_6"],
+        thorough=["async_fake_one_of_family", "async_history_family", "async_outputs_unit_and_large", "sig_gate_async_differs_6"],
+        outside=["executors / wakers / threads", "async functions with captured non-'static state beyond the family"],
     ),
     "C15": dict(
         level_text="(a) every bit-level emitter against the A64 encoding tables for ALL inputs (all imm16/hw/Rd/sf, all 2^64 addresses in every chunk position, all register numbers); (b) the full installation: an independent A64 interpreter started at the function lands exactly on the trampoline writing no register, the trampoline builds exactly the fake's 64-bit address (all 2^64-1 values in one query) in a register in x9..x17 and branches to it, or sets w0 and returns; (c) displacements outside [-128 MiB,+128 MiB) are refused (panic reachable, nothing accepted outside).",
@@ -557,6 +597,22 @@ def premise_type_names_distinct(work, tier):
             "violations": fails, "detail": m.group(0), "samples": ["ordered pairs over %s fn-pointer types through func!; closure!/fake!/simplified forms; unchecked vs typed" % m.group(3)]}
 
 
+def premise_poison_recovery(work, tier):
+    """C05 native premise (NOT a solver step): Kani builds std with panic=abort, where mutex poisoning is
+    compiled out, so the poisoned branch of NoPoisonMutex::lock cannot be reached in the model.  Real run:
+    a thread panics while holding an injector with a fake installed; afterwards the function is restored,
+    nothing is leaked and a new injector can be created and used (with a deadline)."""
+    scn = ("func 0 - 1024 11\nfakefn F near 777\nthread_panic 0 F\nbytes 0\ncall 0 11\nmaps\n"
+           "new\nraw 0 F\ncall 0 777\ndrop\nbytes 0\ncall 0 11\nmaps\n"
+           "thread_panic 0 F\nnew\nbool 0 1\ncall 0 1\ndrop\ncall 0 11\nmaps\n")
+    r = _native(work, scn, "poison")
+    ok = r.get("reproduced")
+    # reproduced == False means every expectation was met
+    return {"name": "poison_recovery", "ok": (True if ok is False else (False if ok is True else None)), "evaluations": 2, "distinct": 2,
+            "violations": ["after a real unwinding exit with a fake installed: " + r.get("detail", "")] if ok is True else [],
+            "detail": r.get("detail", ""), "samples": [scn]}
+
+
 def premise_verifier_message(work, tier):
     """native premise: the scope-exit panic message names both numbers (sampled values; format string)"""
     src = open(os.path.join(regen.REPO, "src", "interface", "verifier.rs")).read()
@@ -592,8 +648,13 @@ def replay_x64_core(rec, work):
         scn = "func 0 %x %d 11\nnew\nbool 0 %d\ncall 0 %d\ndrop\nbytes 0\ncall 0 11\nmaps\n" % (f, off, v, v)
     else:
         t, j = cx.get("t", 0), cx.get("j", 0)
-        far = "far" if abs(t - (j + 5)) > 0x7fffffff else "near"
-        scn = "func 0 %x %d 11\nfakefn F %s 777\nnew\nraw 0 F\ncall 0 777\ndrop\nbytes 0\ncall 0 11\nmaps\n" % (f, off, far)
+        disp = t - j
+        if abs(disp) < (1 << 40):
+            # reproduce the exact fake-to-trampoline displacement (boundary cases of the rel32 test)
+            fake = "fakefn_rel F 0 %d 777" % disp
+        else:
+            fake = "fakefn F far 777"
+        scn = "func 0 %x %d 11\n%s\nnew\nraw 0 F\ncall 0 777\ndrop\nbytes 0\ncall 0 11\nmaps\n" % (f, off, fake)
     return _native(work, scn, rec["harness"])
 
 
